@@ -940,8 +940,107 @@ let run_c13 file =
   close_in ic;
   Printf.printf "SUMMARY cases=%d disagreements=%d impl_failures=%d impl_errors=0 get_results=%d sequence_gets=%d packages_with_foreign_entries=%d\n" !n !n_dis !n_fail !n_get !n_seq !n_foreign
 
+(* ---------- C11 ---------- *)
+let rec nat_of_int (i : int) : nat = if i <= 0 then O else S (nat_of_int (i - 1))
+let rec int_of_nat = function O -> 0 | S n -> 1 + int_of_nat n
+
+(* the parsed configuration as a heap: one cell per non-nil pointer, non-empty slice and non-empty map *)
+let heapify (v : value) : cell list * hval =
+  let cells = ref [] and next = ref 0 in
+  let alloc c = cells := c :: !cells; let l = !next in incr next; l in
+  let rec go v =
+    match v with
+    | VStr s | VOpaque s -> HS s
+    | VNum z -> HS (if int_of_z z = 0 then [] else explode (string_of_int (int_of_z z)))
+    | VBool b -> HS (if b then ['1'] else [])
+    | VStruct fs -> HT (List.map (fun (k, x) -> (k, go x)) fs)
+    | VPtr None -> HS []
+    | VPtr (Some x) -> let x' = go x in HR (KPtr, nat_of_int (alloc [([], x')]))
+    | VSlice [] -> HS []
+    | VSlice l -> let es = List.mapi (fun i x -> (explode (string_of_int i), go x)) l in HR (KSlice, nat_of_int (alloc es))
+    | VMap [] -> HS []
+    | VMap m -> let es = List.map (fun (k, x) -> (k, go x)) m in HR (KMap, nat_of_int (alloc es)) in
+  let root = go v in
+  (List.rev !cells, root)
+
+let hop_of_string (s : string) : hop =
+  match String.split_on_char ':' s with
+  | ["validate"] -> OpValidate
+  | ["name"; f] -> OpName (explode f)
+  | ["pkg"; f] -> OpPackage (explode f)
+  | _ -> failwith ("operation " ^ s)
+
+let run_c11 file =
+  let n = ref 0 and n_dis = ref 0 and n_fail = ref 0 and n_ops = ref 0 and n_alias = ref 0 and n_cells = ref 0 in
+  let ic = open_in file in
+  let id = ref "" and cfg = ref None and fails = ref [] and mfails = ref [] and detail = ref [] and parse_err = ref false in
+  let priv_cache = Hashtbl.create 16 in
+  (try
+     while true do
+       let line = input_line ic in
+       let t = Array.of_list (String.split_on_char ' ' line) in
+       match t.(0) with
+       | "hcase" -> id := t.(1); cfg := None; fails := []; mfails := []; detail := []; parse_err := false; Hashtbl.reset priv_cache
+       | "hparse" -> parse_err := true
+       | "hconfig" -> let (h, root) = heapify (parse_value t (ref 1)) in n_cells := !n_cells + List.length h; cfg := Some (h, root)
+       | "halias" ->
+         (match !cfg with
+          | None -> ()
+          | Some (h, root) ->
+            let f = unhexs t.(1) in
+            let impl = ref [] in
+            let i = ref 2 in
+            while !i + 1 < Array.length t do
+              if t.(!i) <> "" then impl := (unhexs t.(!i), t.(!i + 1) = "1") :: !impl;
+              i := !i + 2
+            done;
+            let model = List.map (fun (p, a) -> (String.concat "/" (List.map implode p), a)) (get_aliases true (explode f) root h) in
+            let impl_s = List.sort compare !impl and model_s = List.sort compare model in
+            n_alias := !n_alias + List.length impl_s;
+            if impl_s <> model_s then begin
+              (* a cell the model says is the operation's own but the code shares with the configuration is where a
+                 leak can happen; the other direction is only a model imprecision, reported as such *)
+              let extra_shared = List.filter (fun (p, a) -> a && not (List.mem (p, true) model_s)) impl_s in
+              let other = List.filter (fun x -> not (List.mem x model_s)) impl_s @ List.filter (fun x -> not (List.mem x impl_s)) model_s in
+              if extra_shared <> [] then fails := ("get-shares-a-cell:" ^ f) :: !fails else mfails := ("alias-model:" ^ f) :: !mfails;
+              detail := Printf.sprintf "Get(%s): references differing between code and model (path, shared with the configuration): %s" f
+                  (String.concat "; " (List.map (fun (p, a) -> Printf.sprintf "%s=%b" p a) other) ^ " | code: " ^ String.concat "; " (List.map (fun (p, a) -> Printf.sprintf "%s=%b" p a) impl_s) ^ " | model: " ^ String.concat "; " (List.map (fun (p, a) -> Printf.sprintf "%s=%b" p a) model_s)) :: !detail
+            end)
+       | "hop" ->
+         incr n_ops;
+         (match !cfg with
+          | None -> ()
+          | Some (h, root) ->
+            let op = unhexs t.(2) in
+            let out_same = t.(3) = "1" and cfg_same = t.(4) = "1" in
+            let predicted =
+              match Hashtbl.find_opt priv_cache op with
+              | Some b -> b
+              | None -> let b = model_private true root h (hop_of_string op) in Hashtbl.add priv_cache op b; b in
+            if not out_same then begin
+              fails := Printf.sprintf "output-differs-from-fresh:%s@%s" op t.(1) :: !fails;
+              detail := Printf.sprintf "operation %s (%s): produced %s, a fresh configuration produces %s" t.(1) op (unhexs t.(5)) (unhexs t.(6)) :: !detail
+            end;
+            if not cfg_same then fails := Printf.sprintf "configuration-changed:%s@%s" op t.(1) :: !fails;
+            if not predicted then mfails := ("model-says-not-private:" ^ op) :: !mfails)
+       | "hchanged" -> detail := Printf.sprintf "after operation %s the parsed configuration differs %s" t.(1) (unhexs t.(2)) :: !detail
+       | "hget" -> if t.(2) <> "1" then fails := ("effective-settings-changed:" ^ unhexs t.(1)) :: !fails
+       | "hend" ->
+         incr n;
+         if !cfg = None && not !parse_err then begin incr n_dis; report !id false ["no-observation"] [] [] end
+         else if !fails <> [] || !mfails <> [] then begin
+           incr n_dis; if !fails <> [] then incr n_fail;
+           report !id false (List.rev !fails) (List.sort_uniq compare !mfails) (List.rev !detail)
+         end
+       | _ -> ()
+     done
+   with End_of_file -> ());
+  close_in ic;
+  Printf.printf "SUMMARY cases=%d disagreements=%d impl_failures=%d impl_errors=0 operations=%d alias_facts=%d heap_cells=%d\n" !n !n_dis !n_fail !n_ops !n_alias !n_cells
+
 let () =
   match Sys.argv with
+  | [| _; "C11"; file |] -> run_c11 file
   | [| _; "C13"; file |] -> run_c13 file
   | [| _; "C05"; file |] -> let ic = open_in file in run_c05 ic; close_in ic
   | [| _; "C01"; file |] -> let ic = open_in file in run_c01 ic; close_in ic
